@@ -104,6 +104,8 @@ func Bases() []Base {
 		{"Lazy", "", func() any { return types.LazyAny(func() any { return types.String() }) }},
 		{"File", "", func() any { return types.File() }},
 		{"Function", "", func() any { return types.Function() }},
+		// annotation keys that assign the same keywords (size vs minSize/maxSize): conversion must not depend on map order
+		{"FileSizeMinMax", "", func() any { return types.File().Size(3).Min(1).Max(9) }},
 	}
 }
 
